@@ -10,7 +10,7 @@ Open Scope Z_scope.
 (* the application message r is retransmitted: not session level, and the application agrees *)
 Definition replayable (f : row -> bool) (r : row) : bool := negb (is_sess_type (r_type r)) && f r.
 
-(* an original send: no PossDupFlag / OrigSendingTime in the body (not the copy left by an earlier resend) *)
+(* an original send that does not itself carry PossDupFlag / OrigSendingTime in its body *)
 Definition clean (r : row) : bool :=
   negb (has_tag T_PossDupFlag (r_body r)) && negb (has_tag T_OrigSendingTime (r_body r)).
 
@@ -21,9 +21,15 @@ Definition codec_row (r : row) : bool := forallb (fun fd => negb (header_skipped
 Definition skipped (J : list row) (f : row -> bool) (n : Z) : Prop :=
   forall r, In r J -> r_seq r = n -> replayable f r = false.
 
+(* the body of the retransmission of r - "otherwise identical body": the journaled body with
+   PossDupFlag := Y and then OrigSendingTime := the journaled SendingTime, where := overwrites the
+   value of a tag the message already carries (position kept) and appends a new tag at the end.
+   For a message that carries neither tag this is  body ++ [43=Y; 122=SendingTime]  (copy_body_clean). *)
+Definition copy_body (r : row) : list field :=
+  upsert T_OrigSendingTime (r_time r) (upsert T_PossDupFlag V_Y (r_body r)).
+
 Definition is_copy_of (r fr : row) : Prop :=
-  r_seq fr = r_seq r /\ r_type fr = r_type r
-  /\ r_body fr = r_body r ++ [(T_PossDupFlag, V_Y); (T_OrigSendingTime, r_time r)].
+  r_seq fr = r_seq r /\ r_type fr = r_type r /\ r_body fr = copy_body r.
 
 Definition is_gap_fill (fr : row) (a h : Z) : Prop :=
   r_seq fr = a /\ r_type fr = MT_SEQUENCERESET
@@ -42,13 +48,12 @@ Inductive chain (J : list row) (f : row -> bool) (lim : Z) : Z -> Z -> list row 
     a < h -> (forall n, a <= n < h -> skipped J f n) -> (h = lim \/ ~ skipped J f h) ->
     is_gap_fill fr a h -> chain J f lim h c rest -> chain J f lim a c (fr :: rest).
 
-(* what the replay loop needs of the recovered rows: ascending from p, and every row that is
-   retransmitted was journaled without tag 43 / 122 in its body *)
+(* what the replay loop needs of the recovered rows: strictly ascending from p *)
 Fixpoint rows_ok (f : row -> bool) (p : Z) (rs : list row) : Prop :=
   match rs with
   | [] => True
   | r :: rest =>
-      p <= r_seq r /\ (replayable f r = true -> clean r = true) /\ rows_ok f (r_seq r + 1) rest
+      p <= r_seq r /\ True /\ rows_ok f (r_seq r + 1) rest
   end.
 
 (* ------------------------------------------------------------------ strings, tags *)
@@ -84,6 +89,40 @@ Proof.
   repeat (apply orb_false_iff in H as [? H]). auto.
 Qed.
 
+Lemma upsert_notin t v l : has_tag t l = false -> upsert t v l = l ++ [(t, v)].
+Proof.
+  unfold has_tag. induction l as [|x l IH]; cbn [existsb upsert app]; [reflexivity|]. intros H.
+  apply orb_false_iff in H as [H1 H2]. rewrite H1, IH by exact H2. reflexivity.
+Qed.
+
+Lemma get_tag_upsert_same t v l : get_tag t (upsert t v l) = Some v.
+Proof.
+  unfold get_tag. induction l as [|x l IH]; cbn [upsert find fst snd].
+  - rewrite str_eqb_refl. reflexivity.
+  - destruct (str_eqb (fst x) t) eqn:E; cbn [find fst snd]; [rewrite str_eqb_refl; reflexivity|]. rewrite E. exact IH.
+Qed.
+
+Lemma get_tag_upsert_other t u v l : str_eqb u t = false -> get_tag t (upsert u v l) = get_tag t l.
+Proof.
+  intros Hne. unfold get_tag. induction l as [|x l IH]; cbn [upsert find fst snd].
+  - rewrite Hne. reflexivity.
+  - destruct (str_eqb (fst x) u) eqn:E; cbn [find fst snd].
+    + rewrite Hne. apply str_eqb_eq in E. destruct (str_eqb (fst x) t) eqn:E2; [|reflexivity].
+      apply str_eqb_eq in E2. rewrite E in E2. subst t. rewrite str_eqb_refl in Hne. discriminate.
+    + destruct (str_eqb (fst x) t); [reflexivity|exact IH].
+Qed.
+
+Lemma forallb_upsert (q : str -> bool) t v l :
+  q t = true -> forallb (fun fd => q (fst fd)) l = true -> forallb (fun fd : field => q (fst fd)) (upsert t v l) = true.
+Proof.
+  intros Hq. induction l as [|x l IH]; cbn [upsert forallb fst].
+  - intros _. rewrite Hq. reflexivity.
+  - intros H. apply andb_true_iff in H as [H1 H2].
+    destruct (str_eqb (fst x) t); cbn [forallb fst].
+    + rewrite Hq. exact H2.
+    + rewrite H1. exact (IH H2).
+Qed.
+
 (* ------------------------------------------------------------------ sending inside the handler *)
 
 Definition sending_ok (s : st) : Prop := cstate s = ST_HANDLING \/ cstate s = ST_AWAITING.
@@ -107,43 +146,39 @@ Proof.
   intros Hs. unfold send_msg. rewrite gates_ok by assumption. reflexivity.
 Qed.
 
-Definition copy_frame (r : row) (k : Z) : row :=
-  mkRow (r_seq r) (r_type r) (time_str k) (r_body r ++ [(T_PossDupFlag, V_Y); (T_OrigSendingTime, r_time r)]).
+Definition copy_frame (r : row) (k : Z) : row := mkRow (r_seq r) (r_type r) (time_str k) (copy_body r).
 
-Lemma mk_replay_clean r : clean r = true ->
-  mk_replay r = Some (mkMsg (r_type r) (Some (r_seq r))
-                            (r_body r ++ [(T_PossDupFlag, V_Y); (T_OrigSendingTime, r_time r)])).
+Lemma copy_body_clean r : clean r = true ->
+  copy_body r = r_body r ++ [(T_PossDupFlag, V_Y); (T_OrigSendingTime, r_time r)].
 Proof.
-  unfold clean, mk_replay. intros H. apply andb_true_iff in H as [H1 H2].
-  apply negb_true_iff in H1, H2. rewrite H1, has_tag_app, H2. reflexivity.
+  unfold clean, copy_body. intros H. apply andb_true_iff in H as [H1 H2]. apply negb_true_iff in H1, H2.
+  rewrite (upsert_notin _ _ _ H1), upsert_notin, <- app_assoc; [reflexivity|].
+  rewrite has_tag_app, H2. reflexivity.
 Qed.
 
 (* a retransmission built by mk_replay is written under its own number and not journaled *)
-Lemma send_replay_gen r m s :
-  sending_ok s -> is_sess_type (r_type r) = false -> mk_replay r = Some m ->
-  send_msg m s = Ok (sent (mkRow (r_seq r) (r_type r) (time_str (clock s + 1))
-                                 (filter (fun fd => negb (header_skipped (fst fd))) (m_fields m))) s).
+Lemma send_replay_gen r s :
+  sending_ok s -> is_sess_type (r_type r) = false ->
+  send_msg (mk_replay r) s
+  = Ok (sent (mkRow (r_seq r) (r_type r) (time_str (clock s + 1))
+                    (filter (fun fd => negb (header_skipped (fst fd))) (copy_body r))) s).
 Proof.
-  intros Hs Ht Hm. unfold mk_replay in Hm.
-  destruct (has_tag T_PossDupFlag (r_body r)) eqn:H43; [discriminate|].
-  destruct (has_tag T_OrigSendingTime (r_body r ++ [(T_PossDupFlag, V_Y)])); [discriminate|].
-  injection Hm as <-. unfold send_msg. rewrite gates_ok by assumption.
+  intros Hs Ht. unfold send_msg, mk_replay. rewrite gates_ok by assumption.
   destruct (sess_false_types _ Ht) as [Ht1 Ht4]. cbn [m_type m_seq m_fields].
   rewrite Ht1. cbn [andb]. unfold select_seq, is_resend_reply, tag_is_Y. cbn [m_type m_seq m_fields]. rewrite Ht4.
-  rewrite (get_tag_app_notin _ _ _ H43).
-  change (get_tag T_PossDupFlag [(T_PossDupFlag, V_Y); (T_OrigSendingTime, r_time r)]) with (Some V_Y).
+  rewrite (get_tag_upsert_other T_PossDupFlag T_OrigSendingTime) by reflexivity.
+  rewrite get_tag_upsert_same.
   cbv iota beta. change (str_eqb V_Y V_Y) with true. cbv iota beta. cbn [orb]. reflexivity.
 Qed.
 
 Lemma send_replay r s :
-  sending_ok s -> is_sess_type (r_type r) = false -> clean r = true -> codec_row r = true ->
-  send_msg (mkMsg (r_type r) (Some (r_seq r))
-                  (r_body r ++ [(T_PossDupFlag, V_Y); (T_OrigSendingTime, r_time r)])) s
-  = Ok (sent (copy_frame r (clock s + 1)) s).
+  sending_ok s -> is_sess_type (r_type r) = false -> codec_row r = true ->
+  send_msg (mk_replay r) s = Ok (sent (copy_frame r (clock s + 1)) s).
 Proof.
-  intros Hs Ht Hc Hcr. rewrite (send_replay_gen r _ s Hs Ht (mk_replay_clean r Hc)).
-  cbn [m_fields]. rewrite filter_app. unfold codec_row in Hcr. rewrite filter_all by exact Hcr.
-  reflexivity.
+  intros Hs Ht Hcr. rewrite (send_replay_gen r s Hs Ht). unfold copy_frame.
+  rewrite filter_all; [reflexivity|]. unfold copy_body, codec_row in *.
+  apply (forallb_upsert (fun t => negb (header_skipped t))); [reflexivity|].
+  apply (forallb_upsert (fun t => negb (header_skipped t))); [reflexivity|exact Hcr].
 Qed.
 
 (* ------------------------------------------------------------------ the replay / gap-fill loop *)
@@ -206,10 +241,9 @@ Lemma pre_replay J f c hi r rest gfb gfe g :
   pre J f c hi (r :: rest) gfb gfe -> replayable f r = true -> g <= r_seq r ->
   pre J f c hi rest (r_seq r + 1) g
   /\ gfb <= r_seq r /\ (forall n, gfb <= n < r_seq r -> skipped J f n)
-  /\ clean r = true /\ In r J /\ codec_row r = true /\ r_seq r < hi.
+  /\ In r J /\ codec_row r = true /\ r_seq r < hi.
 Proof.
   intros (H2 & H3 & H4 & H5 & H6 & H7) Hr Hg. cbn [rows_ok] in H2. destruct H2 as (H2a & H2b & H2c).
-  pose proof (H2b Hr) as Hcl.
   assert (Hmax : Z.max (r_seq r + 1) g = r_seq r + 1) by lia.
   destruct (H3 r (or_introl eq_refl)) as (HJ & Hcr & Hc).
   pose proof (rows_ok_lb _ _ _ H2c) as Hlb.
@@ -260,8 +294,7 @@ Proof.
       cbv zeta. set (g := if gfb <? r_seq r then r_seq r else gfe).
       assert (Hp0 : Z.max gfb gfe <= r_seq r) by (destruct Hpre as ((Hp & _) & _); exact Hp).
       assert (Hg : g <= r_seq r) by (unfold g; destruct (gfb <? r_seq r); lia).
-      destruct (pre_replay _ _ _ _ _ _ _ _ g Hpre Hr Hg) as (Hpre' & Hle & Hsk & Hcl & HJ & Hcr & Hhi).
-      rewrite (mk_replay_clean _ Hcl).
+      destruct (pre_replay _ _ _ _ _ _ _ _ g Hpre Hr Hg) as (Hpre' & Hle & Hsk & HJ & Hcr & Hhi).
       destruct (gfb <? g) eqn:Hcmp.
       * (* gap fill [gfb, r_seq r) first *)
         assert (Eg : g = r_seq r) by (unfold g in *; destruct (gfb <? r_seq r) eqn:E; lia).
@@ -269,7 +302,7 @@ Proof.
         rewrite (send_gap_fill gfb g s0 Hs0). fold gf. fold s1.
         assert (Hs1 : sending_ok s1) by exact Hs.
         set (cp := copy_frame r (clock s1 + 1)). set (s2 := sent cp s1).
-        rewrite (send_replay r s1 Hs1 Hst Hcl Hcr). fold cp. fold s2.
+        rewrite (send_replay r s1 Hs1 Hst Hcr). fold cp. fold s2.
         assert (Hs2 : sending_ok s2) by exact Hs.
         destruct (IH (r_seq r + 1) g s2 Hs2 Hpre') as (g1 & g2 & s' & W & E & Hsb & Hch & Hsk' & Hb' & He').
         exists g1, g2, s', (gf :: cp :: W). split; [exact E|]. split; [|split; [|split; [exact Hsk'|split; [lia|exact He']]]].
@@ -283,7 +316,7 @@ Proof.
       * (* gfb = r_seq r: nothing pending *)
         assert (Eb : gfb = r_seq r) by (unfold g in *; destruct (gfb <? r_seq r) eqn:E; lia).
         set (cp := copy_frame r (clock s0 + 1)). set (s2 := sent cp s0).
-        rewrite (send_replay r s0 Hs0 Hst Hcl Hcr). fold cp. fold s2.
+        rewrite (send_replay r s0 Hs0 Hst Hcr). fold cp. fold s2.
         assert (Hs2 : sending_ok s2) by exact Hs.
         destruct (IH (r_seq r + 1) g s2 Hs2 Hpre') as (g1 & g2 & s' & W & E & Hsb & Hch & Hsk' & Hb' & He').
         exists g1, g2, s', (cp :: W). split; [exact E|]. split; [|split; [|split; [exact Hsk'|split; [lia|exact He']]]].
@@ -388,11 +421,11 @@ Definition journal_ok (s : st) : Prop :=
   /\ nout s <= INT64_MAX.
 
 
-Definition eff_end (e0 : Z) : Z := if e0 =? 0 then sys_maxsize else e0.
+Definition eff_end (e0 : Z) : Z := if (e0 =? 0) || (sys_maxsize <? e0) then sys_maxsize else e0.
 
 Lemma body_ok f s b e0 :
   sending_ok s -> journal_ok s ->
-  1 <= b <= nout s -> fits_int64 e0 = true ->
+  1 <= b <= nout s -> INT64_MIN <= e0 ->
   rows_ok f b (recover b (eff_end e0) (rows s)) ->
   let hi := Z.max b (Z.min (nout s) (eff_end e0 + 1)) in
   exists W s', resend_body f b e0 s = (s', None)
@@ -408,7 +441,8 @@ Proof.
   unfold resend_body. fold (eff_end e0). fold e. fold c. fold J.
   assert (Hfb : fits_int64 b = true) by (unfold fits_int64, INT64_MIN, INT64_MAX in *; lia).
   assert (Hfe : fits_int64 e = true).
-  { unfold e, eff_end. destruct (e0 =? 0); [rewrite Hsm; reflexivity|exact He0]. }
+  { unfold e, eff_end, fits_int64. rewrite Hsm.
+    destruct ((e0 =? 0) || (INT64_MAX <? e0)) eqn:E0; unfold INT64_MIN, INT64_MAX in *; lia. }
   rewrite Hfb, Hfe. cbn [andb negb].
   assert (Hpre : pre J f c last (recover b e J) b b).
   { unfold pre. rewrite Z.max_id. split; [exact Hok|split; [|split; [|split; [|split]]]].
@@ -443,7 +477,7 @@ Qed.
 Lemma resend_partial f s bs es b0 b e0 :
   py_int bs = Some b0 -> clamp1 b0 = b -> py_int es = Some e0 ->
   (cstate s = ST_ACTIVE \/ cstate s = ST_AWAITING) -> journal_ok s ->
-  b <= nout s -> fits_int64 e0 = true ->
+  b <= nout s -> INT64_MIN <= e0 ->
   rows_ok f b (recover b (eff_end e0) (rows s)) ->
   handler_correct f s (Some bs) (Some es).
 Proof.
@@ -464,22 +498,16 @@ Proof.
   destruct ((1 <=? b) && ((e0 =? 0) || (b <=? e0))) eqn:Hvalid.
   - assert (Hhi : Z.max b (if e0 =? 0 then nout s else Z.min (e0 + 1) (nout s))
                   = Z.max b (Z.min (nout s) (eff_end e0 + 1))).
-    { unfold eff_end. destruct (e0 =? 0) eqn:E0; [rewrite Hsm|]; lia. }
+    { unfold eff_end. rewrite Hsm. destruct (e0 =? 0) eqn:E0; cbn [orb]; [unfold INT64_MAX in *; lia|].
+      destruct (INT64_MAX <? e0) eqn:E1; unfold INT64_MAX in *; lia. }
     rewrite Hhi. exact Hch.
   - assert (Hhi : Z.max b (Z.min (nout s) (eff_end e0 + 1)) = b).
-    { unfold eff_end. destruct (e0 =? 0) eqn:E0; lia. }
+    { unfold eff_end. rewrite Hsm. destruct (e0 =? 0) eqn:E0; cbn [orb]; [lia|].
+      destruct (INT64_MAX <? e0) eqn:E1; unfold INT64_MAX in *; lia. }
     rewrite Hhi in Hch. exact (chain_empty _ _ _ _ _ Hch).
 Qed.
 
-(* ------------------------------------------------------------------ known-finding class predicates
-   (decidable from the request, the replay filter and the pre-state; mirrored by harness/c06.py) *)
-
-Definition in_req_range (b e : Z) (r : row) : bool := (b <=? r_seq r) && (r_seq r <=? e).
-
-(* a replayed message in range was journaled with tag 43 or 122 in its body (an application that
-   sets PossDupFlag=N or OrigSendingTime itself; the handler leaves no copies behind) *)
-Definition k_row_carries_possdup_tags (f : row -> bool) (s : st) (b e0 : Z) : bool :=
-  existsb (fun r => in_req_range b (eff_end e0) r && replayable f r && negb (clean r)) (rows s).
+(* ------------------------------------------------------------------ the range query is ascending *)
 
 (* strictly ascending from p *)
 Fixpoint asc (p : Z) (rs : list row) : Prop :=
@@ -530,31 +558,14 @@ Proof.
 Qed.
 
 
-Lemma asc_rows_ok f : forall rs p, asc p rs ->
-  (forall r, In r rs -> replayable f r = true -> clean r = true) -> rows_ok f p rs.
+Lemma asc_rows_ok f : forall rs p, asc p rs -> rows_ok f p rs.
 Proof.
-  induction rs as [|r rest IH]; intros p Ha Hcl; cbn; [auto|].
-  destruct Ha as [Hp Ha]. split; [exact Hp|]. split.
-  - apply Hcl. left; reflexivity.
-  - apply IH; [exact Ha|intros x Hx; apply Hcl; right; exact Hx].
+  induction rs as [|r rest IH]; intros p Ha; cbn; [auto|].
+  destruct Ha as [Hp Ha]. split; [exact Hp|]. split; [exact I|]. apply IH. exact Ha.
 Qed.
 
-Lemma existsb_false {A} (p : A -> bool) l : existsb p l = false -> forall x, In x l -> p x = false.
-Proof.
-  intros H x Hx. apply not_true_is_false. intros Hp.
-  assert (existsb p l = true) by (apply existsb_exists; eauto). congruence.
-Qed.
-
-(* outside the journal class the recovered rows are what the loop handles correctly *)
-Lemma classes_rows_ok f s b e0 :
-  NoDup (map r_seq (rows s)) -> k_row_carries_possdup_tags f s b e0 = false ->
-  rows_ok f b (recover b (eff_end e0) (rows s)).
-Proof.
-  intros Hnd Hl. apply asc_rows_ok; [apply recover_asc; exact Hnd|].
-  intros r Hr Hrep. apply in_recover in Hr as [Hin Hrg].
-  pose proof (existsb_false _ _ Hl r Hin) as H. cbn beta in H. rewrite Hrep in H.
-  unfold in_req_range in H. destruct (clean r); [reflexivity|]. cbn in H. lia.
-Qed.
+Lemma recover_rows_ok f s b e : NoDup (map r_seq (rows s)) -> rows_ok f b (recover b e (rows s)).
+Proof. intros Hnd. apply asc_rows_ok. apply recover_asc. exact Hnd. Qed.
 
 (* ------------------------------------------------------------------ pristine journals *)
 
@@ -636,7 +647,7 @@ Definition untouched (s s' : st) : Prop :=
 Lemma loop_general f : forall rs gfb gfe s, sending_ok s ->
   match replay_loop f rs gfb gfe s with
   | LOk g1 g2 s' => untouched s s'
-  | LExc e s' => e = EDuplicatedTag /\ untouched s s'
+  | LExc e s' => False
   end.
 Proof.
   induction rs as [|r rest IH]; intros gfb gfe s Hs; cbn [replay_loop]; [unfold untouched; auto|].
@@ -646,21 +657,18 @@ Proof.
   destruct (f r); cbn [negb]; [|exact (IH gfb (r_seq r + 1) s0 Hs0)].
   cbv zeta. set (gfe' := if gfb <? r_seq r then r_seq r else gfe).
   assert (Hstep : forall s1, sending_ok s1 -> untouched s s1 ->
-            match (match mk_replay r with
-                   | Some m => match send_msg m s1 with
-                               | Ok s2 => replay_loop f rest (r_seq r + 1) gfe' s2
-                               | Exc e s' => LExc e s'
-                               end
-                   | None => LExc EDuplicatedTag s1
+            match (match send_msg (mk_replay r) s1 with
+                   | Ok s2 => replay_loop f rest (r_seq r + 1) gfe' s2
+                   | Exc e s' => LExc e s'
                    end) with
             | LOk g1 g2 s' => untouched s s'
-            | LExc e s' => e = EDuplicatedTag /\ untouched s s'
+            | LExc e s' => False
             end).
-  { intros s1 Hs1 Hu. destruct (mk_replay r) as [m|] eqn:Hm; [|auto].
-    rewrite (send_replay_gen r m s1 Hs1 Hst Hm).
+  { intros s1 Hs1 Hu. rewrite (send_replay_gen r s1 Hs1 Hst).
     match goal with |- context [replay_loop f rest ?a ?b ?s2] =>
       assert (Hs2 : sending_ok s2) by exact Hs1; specialize (IH a b s2 Hs2);
-      destruct (replay_loop f rest a b s2) end; unfold untouched in *; cbn [cstate rows nout sout sent] in IH; intuition congruence. }
+      destruct (replay_loop f rest a b s2) end; [|exact IH].
+    unfold untouched in *; cbn [cstate rows nout sout sent] in IH; intuition congruence. }
   destruct (gfb <? gfe').
   - rewrite (send_gap_fill gfb gfe' s0 Hs0). apply Hstep; [exact Hs|unfold untouched; auto].
   - apply Hstep; [exact Hs|unfold untouched; auto].
@@ -668,7 +676,7 @@ Qed.
 
 Definition allowed_exc (x : option exc) : Prop :=
   match x with
-  | Some EDuplicateSeqNo | Some EConnection | Some EEncoding => False
+  | Some EDuplicateSeqNo | Some EConnection | Some EEncoding | Some EDuplicatedTag => False
   | _ => True
   end.
 
@@ -698,11 +706,11 @@ Proof.
   destruct es as [es|]; [|repeat split; auto; exact I].
   destruct (py_int es) as [e0|]; [|repeat split; auto; exact I].
   generalize (clamp1 b). clear b. intros b.
-  unfold resend_body. set (e := if e0 =? 0 then sys_maxsize else e0).
+  unfold resend_body. set (e := if (e0 =? 0) || (sys_maxsize <? e0) then sys_maxsize else e0).
   destruct (fits_int64 b && fits_int64 e); cbn [negb]; [|repeat split; auto; exact I].
   pose proof (loop_general f (recover b e (rows sa)) b b sa Hs) as Hloop.
   destruct (replay_loop f (recover b e (rows sa)) b b sa) as [g1 g2 s2|x s2].
-  2:{ destruct Hloop as [-> (Hc & Hr & Hn & Hso)]. repeat split; auto; try exact I; rewrite Hc; exact Ec. }
+  2:{ destruct Hloop. }
   destruct Hloop as (Hc2 & Hr2 & Hn2 & Hso2).
   destruct (g2 <=? nout sa); cbn [negb].
   2:{ repeat split; auto; try exact I; rewrite Hc2; exact Ec. }
@@ -757,18 +765,14 @@ Proof.
         exact (wext_trans _ _ _ _ Hw0 IH). }
   cbv zeta. set (gfe' := if gfb <? r_seq r then r_seq r else gfe).
   assert (Hstep : forall s1, sending_ok s1 -> wext lo s s1 ->
-            match (match mk_replay r with
-                   | Some m => match send_msg m s1 with
-                               | Ok s2 => replay_loop f rest (r_seq r + 1) gfe' s2
-                               | Exc e s' => LExc e s'
-                               end
-                   | None => LExc EDuplicatedTag s1
+            match (match send_msg (mk_replay r) s1 with
+                   | Ok s2 => replay_loop f rest (r_seq r + 1) gfe' s2
+                   | Exc e s' => LExc e s'
                    end) with
             | LOk g1 g2 s' => lo <= g1 /\ wext lo s s'
             | LExc e s' => wext lo s s'
             end).
-  { intros s1 Hs1 Hw1. destruct (mk_replay r) as [m|] eqn:Hm; [|exact Hw1].
-    rewrite (send_replay_gen r m s1 Hs1 Hst Hm).
+  { intros s1 Hs1 Hw1. rewrite (send_replay_gen r s1 Hs1 Hst).
     match goal with |- context [replay_loop f rest ?a ?b (sent ?fr s1)] =>
       assert (Hs2 : sending_ok (sent fr s1)) by exact Hs1;
       assert (Hw2 : wext lo s (sent fr s1)) by (apply (wext_trans _ _ _ _ Hw1); apply wext_sent; exact Hr);
@@ -796,7 +800,7 @@ Proof.
   destruct es as [es|]; [|exact Hw]. destruct (py_int es) as [e0|]; [|exact Hw].
   assert (Hb1 : 1 <= clamp1 b0) by (unfold clamp1; destruct (b0 <? 1) eqn:E; lia).
   revert Hb1. generalize (clamp1 b0). intros b Hb1.
-  unfold resend_body. set (e := if e0 =? 0 then sys_maxsize else e0).
+  unfold resend_body. set (e := if (e0 =? 0) || (sys_maxsize <? e0) then sys_maxsize else e0).
   destruct (fits_int64 b && fits_int64 e); cbn [negb fst]; [|exact Hw].
   assert (Hrs : forall r, In r (recover b e (rows sa)) -> 1 <= r_seq r).
   { intros r Hr. apply in_recover in Hr. lia. }
@@ -904,13 +908,6 @@ Definition parse_req (bs es : option str) : option (Z * Z) :=
   | _, _ => None
   end.
 
-(* class predicates on the raw request: an unreadable request is in no class *)
-Definition in_class (k : Z -> Z -> bool) (bs es : option str) : bool :=
-  match parse_req bs es with Some (b, e0) => k b e0 | None => false end.
-
-(* EndSeqNo beyond 64 bits although something that was sent is asked for (sqlite3 cannot bind it) *)
-Definition k_end_beyond_64 (s : st) (b e0 : Z) : bool := (INT64_MAX <? e0) && (b <? nout s).
-
 (* an unreadable request (tag 7 / 16 absent or not an int() literal): nothing is sent, everything is
    as before - the right outcome for an invalid request *)
 Lemma unreadable_correct f s bs es :
@@ -932,17 +929,16 @@ Proof.
   eapply nothing_sent_correct; [exact Hst|unfold process_resend; rewrite Eb, Ee; reflexivity|exact Hrng].
 Qed.
 
-(* the partial theorem over ALL requests: readable or not, any BeginSeqNo (below 1, beyond the last
-   sent number, beyond 64 bits), any EndSeqNo (0, bounded, below BeginSeqNo), journals with holes
-   anywhere - with exactly the two negated class predicates as hypotheses *)
-Lemma resend_partial_total f s bs es :
+(* THE theorem: every request - readable or not, any BeginSeqNo (below 1, beyond the last sent
+   number, beyond 64 bits), any EndSeqNo (0, bounded, below BeginSeqNo, beyond 64 bits) -, every
+   journal with unique keys below the counter (holes anywhere, rows that carry tag 43 / 122
+   themselves), every filter, both start states: no class hypothesis is left *)
+Lemma resend_total f s bs es :
   (cstate s = ST_ACTIVE \/ cstate s = ST_AWAITING) ->
   journal_ok s -> NoDup (map r_seq (rows s)) ->
-  in_class (k_end_beyond_64 s) bs es = false ->
-  in_class (k_row_carries_possdup_tags f s) bs es = false ->
   resend_correct f s bs es.
 Proof.
-  intros Hst Hj Hnd H64 Hpd. unfold in_class in *.
+  intros Hst Hj Hnd.
   destruct (parse_req bs es) as [[b e0]|] eqn:Hp; [|exact (unreadable_correct f s bs es Hst Hp)].
   unfold parse_req in Hp.
   destruct bs as [bs|]; [|discriminate]. destruct es as [es|]; [|discriminate].
@@ -950,7 +946,6 @@ Proof.
   injection Hp as Hb <-.
   assert (H1 : 1 <= b) by (subst b; unfold clamp1; destruct (b0 <? 1) eqn:E; lia).
   pose proof Hj as (HJ & Hmax). rewrite Forall_forall in HJ.
-  unfold k_end_beyond_64 in H64.
   (* what the property asks when nothing that was sent is requested *)
   assert (Htriv : nout s <= b \/ (e1 <> 0 /\ e1 < b) -> range_trivial s (Some bs) (Some es)).
   { intros Hc. unfold range_trivial, requested_range. rewrite Eb, Ee. cbv zeta. rewrite Hb.
@@ -962,12 +957,15 @@ Proof.
   { intros x E Hc. exact (nothing_sent_correct f s _ _ x Hst E (Htriv Hc)). }
   destruct (fits_int64 b && fits_int64 (eff_end e1)) eqn:Hfit.
   - apply andb_true_iff in Hfit as [Hfb Hfe].
+    assert (Hmin : INT64_MIN <= e1).
+    { unfold eff_end, fits_int64 in Hfe. assert (Hsm : sys_maxsize = INT64_MAX) by reflexivity. rewrite Hsm in Hfe.
+      destruct (e1 =? 0) eqn:E0; cbn [orb] in Hfe; [unfold INT64_MIN; lia|].
+      destruct (INT64_MAX <? e1) eqn:E1; unfold INT64_MIN, INT64_MAX in *; lia. }
     destruct (Z.leb_spec b (nout s)) as [Hle|Hgt].
     + (* the handler serves it *)
       apply (handler_correct_lift f s _ _ Hst).
-      apply (resend_partial f s bs es b0 b e1 Eb Hb Ee Hst Hj Hle).
-      * unfold eff_end in Hfe. destruct (e1 =? 0) eqn:E; [|exact Hfe]. replace e1 with 0 by lia. reflexivity.
-      * exact (classes_rows_ok f s b e1 Hnd Hpd).
+      apply (resend_partial f s bs es b0 b e1 Eb Hb Ee Hst Hj Hle Hmin).
+      exact (recover_rows_ok f s b (eff_end e1) Hnd).
     + (* BeginSeqNo beyond next_num_out: the range query is empty, the assertion aborts *)
       apply (Hsa (Some EAssertion)); [|left; lia].
       unfold process_resend. rewrite Eb, Ee, Hb.
@@ -977,13 +975,14 @@ Proof.
       unfold resend_body. fold (eff_end e1). rewrite Hfb, Hfe. cbn [andb negb].
       rewrite recover_none by (rewrite Er; intros r Hr; destruct (HJ _ Hr); lia).
       cbn [replay_loop]. rewrite En. destruct (b <=? nout s) eqn:E; [lia|]. reflexivity.
-  - (* a number beyond 64 bits: OverflowError before anything happens *)
+  - (* BeginSeqNo above 2^63-1 or EndSeqNo below -2^63: OverflowError before anything happens;
+       nothing that was sent is asked for *)
     apply (Hsa (Some EOverflow)).
     + unfold process_resend. rewrite Eb, Ee, Hb. unfold resend_body. fold (eff_end e1). rewrite Hfit. reflexivity.
-    + apply andb_false_iff in Hfit. unfold fits_int64, eff_end, INT64_MIN in *.
-      assert (Hsm : sys_maxsize = INT64_MAX) by reflexivity.
-      destruct (e1 =? 0) eqn:E0; [rewrite Hsm in Hfit; unfold INT64_MAX in *; left; lia|].
-      unfold INT64_MAX in *. lia.
+    + apply andb_false_iff in Hfit. unfold fits_int64, eff_end in Hfit.
+      assert (Hsm : sys_maxsize = INT64_MAX) by reflexivity. rewrite Hsm in Hfit.
+      destruct (e1 =? 0) eqn:E0; cbn [orb] in Hfit; [unfold INT64_MIN, INT64_MAX in *; left; lia|].
+      destruct (INT64_MAX <? e1) eqn:E1; unfold INT64_MIN, INT64_MAX in *; lia.
 Qed.
 
 (* For every state, journal, request and filter - no hypothesis at all: serving a ResendRequest never
@@ -1019,36 +1018,27 @@ Qed.
 Lemma serve_repeatable f s bs es f2 bs2 es2 :
   (cstate s = ST_ACTIVE \/ cstate s = ST_AWAITING) ->
   journal_ok s -> NoDup (map r_seq (rows s)) ->
-  let s1 := fst (serve_resend f bs es s) in
-  in_class (k_end_beyond_64 s) bs2 es2 = false ->
-  in_class (k_row_carries_possdup_tags f2 s) bs2 es2 = false ->
-  resend_correct f2 s1 bs2 es2.
+  resend_correct f2 (fst (serve_resend f bs es s)) bs2 es2.
 Proof.
-  intros Hst Hj Hnd s1 H1 H3.
+  intros Hst Hj Hnd.
   pose proof (serve_general f s bs es) as H. pose proof (serve_state_restored f s bs es Hst) as Hc.
-  fold s1 in Hc. destruct (serve_resend f bs es s) as [s' x] eqn:E. cbn [fst] in s1. subst s1.
+  destruct (serve_resend f bs es s) as [s' x] eqn:E. cbn [fst] in *.
   destruct H as (Hr & Hn & _).
-  apply resend_partial_total.
+  apply resend_total.
   - rewrite Hc. exact Hst.
   - unfold journal_ok. rewrite Hr, Hn. exact Hj.
   - rewrite Hr. exact Hnd.
-  - unfold in_class, k_end_beyond_64 in *. rewrite Hn. exact H1.
-  - unfold in_class, k_row_carries_possdup_tags in *. rewrite Hr. exact H3.
 Qed.
 
-Lemma pristine_total f s bs es b0 e0 :
-  py_int bs = Some b0 -> py_int es = Some e0 -> e0 <= INT64_MAX ->
-  (cstate s = ST_ACTIVE \/ cstate s = ST_AWAITING) -> pristine s ->
-  resend_correct f s (Some bs) (Some es).
+(* pristine journals satisfy the hypotheses *)
+Lemma pristine_total f s bs es :
+  (cstate s = ST_ACTIVE \/ cstate s = ST_AWAITING) -> pristine s -> resend_correct f s bs es.
 Proof.
-  intros Hpb Hpe He Hst (Hc & Hcl & Hlen & Hmax). rewrite Forall_forall in Hcl.
+  intros Hst (Hc & Hcl & Hlen & Hmax). rewrite Forall_forall in Hcl.
   pose proof (contig_seqs _ _ Hc) as Hseqs.
-  apply resend_partial_total; try assumption; unfold in_class, parse_req; rewrite ?Hpb, ?Hpe.
-  - split; [|assumption]. apply Forall_forall. intros r Hr.
-    specialize (Hseqs _ Hr). destruct (Hcl _ Hr). split; [lia|assumption].
-  - exact (contig_nodup _ _ Hc).
-  - unfold k_end_beyond_64. destruct (INT64_MAX <? e0) eqn:E; [lia|reflexivity].
-  - apply existsb_all_false. intros r Hr. destruct (Hcl _ Hr) as [-> _]. cbn. apply andb_false_r.
+  apply resend_total; [exact Hst| |exact (contig_nodup _ _ Hc)].
+  split; [|assumption]. apply Forall_forall. intros r Hr.
+  specialize (Hseqs _ Hr). destruct (Hcl _ Hr). split; [lia|assumption].
 Qed.
 
 (* BeginSeqNo <= 0 is served exactly like BeginSeqNo = 1 *)
@@ -1071,7 +1061,7 @@ Proof.
   split; [exact E1|]. split; [exact E2|]. unfold resend_correct. rewrite E1, E2. tauto.
 Qed.
 
-(* ------------------------------------------------------------------ witnesses *)
+(* ------------------------------------------------------------------ concrete instances *)
 
 Definition w_logon : row := mkRow 1 [65%N] (time_str 1) [([57; 56]%N, [48%N]); ([49; 48; 56]%N, [51; 48]%N)].
 Definition w_app (n : Z) : row := mkRow n [68%N] (time_str n) [([49; 49]%N, 99%N :: z_to_dec n); ([53; 53]%N, [83; 89; 77]%N)].
@@ -1079,18 +1069,12 @@ Definition w_hb (n : Z) : row := mkRow n [48%N] (time_str n) [].
 Definition w_state (st0 nxt : Z) (rs : list row) : st := mkSt st0 false false nxt (nxt - 1) (nxt - 1) rs [] [] [].
 Definition w_all (r : row) : bool := true.
 
-(* the two class predicates of a request, as a pair *)
-Definition classes_of (f : row -> bool) (s : st) (bs es : option str) :=
-  (in_class (k_end_beyond_64 s) bs es, in_class (k_row_carries_possdup_tags f s) bs es).
-
-Lemma chain_nil_inv J f lim a c : chain J f lim a c [] -> a = c.
-Proof. inversion 1; reflexivity. Qed.
-
 Ltac prove_pristine := unfold pristine; repeat split; try (vm_compute; congruence); repeat constructor.
 Ltac prove_journal_ok := unfold journal_ok; repeat split; try (vm_compute; congruence); repeat constructor; vm_compute; congruence.
 Ltac prove_nodup := vm_compute; repeat constructor; cbn; intuition congruence.
+Ltac by_total := apply resend_total; [left; reflexivity|prove_journal_ok|prove_nodup].
 
-(* bounded EndSeqNo (was C06-bounded-end): [Logon, D2, D3, D4], next 5, ResendRequest(2, 2) -> D2 only;
+(* bounded EndSeqNo: [Logon, D2, D3, D4], next 5, ResendRequest(2, 2) -> D2 only;
    ResendRequest(2, 3) over [Logon, D2, HB3, D4] -> D2, GapFill(3 -> 4) *)
 Definition w_bounded := w_state ST_ACTIVE 5 [w_logon; w_app 2; w_app 3; w_app 4].
 Definition w_bounded2 := w_state ST_ACTIVE 5 [w_logon; w_app 2; w_hb 3; w_app 4].
@@ -1099,30 +1083,18 @@ Lemma bounded_end_ok :
   /\ map r_seq (wire (fst (serve_resend w_all (dec 2) (dec 2) w_bounded))) = [2]
   /\ (let s' := fst (serve_resend w_all (dec 2) (dec 3) w_bounded2) in
       map r_seq (wire s') = [2; 3] /\ map (fun r => get_tag T_NewSeqNo (r_body r)) (wire s') = [None; Some [52%N]]).
-Proof.
-  assert (Hp : pristine w_bounded) by prove_pristine.
-  assert (Hp2 : pristine w_bounded2) by prove_pristine.
-  split; [apply (pristine_total w_all w_bounded _ _ 2 2); try reflexivity; [vm_compute; congruence|left; reflexivity|exact Hp]|].
-  split; [apply (pristine_total w_all w_bounded2 _ _ 2 3); try reflexivity; [vm_compute; congruence|left; reflexivity|exact Hp2]|].
-  vm_compute. repeat split; reflexivity.
-Qed.
+Proof. split; [by_total|]. split; [by_total|]. vm_compute. repeat split; reflexivity. Qed.
 
-(* holes (was C06-hole-before-replayed, D21): rows {1, 2, 4, 5}, next 6, ResendRequest(2, 0) ->
-   D2, GapFill(3 -> 4), D4, D5 *)
+(* holes (D21): rows {1, 2, 4, 5}, next 6, ResendRequest(2, 0) -> D2, GapFill(3 -> 4), D4, D5 *)
 Definition w_hole := w_state ST_ACTIVE 6 [w_logon; w_app 2; w_app 4; w_app 5].
 Lemma hole_ok :
   resend_correct w_all w_hole (dec 2) (dec 0)
   /\ (let s' := fst (serve_resend w_all (dec 2) (dec 0) w_hole) in
       map r_seq (wire s') = [2; 3; 4; 5]
       /\ map (fun r => get_tag T_NewSeqNo (r_body r)) (wire s') = [None; Some [52%N]; None; None]).
-Proof.
-  split; [|vm_compute; repeat split; reflexivity].
-  apply resend_partial_total; [left; reflexivity|prove_journal_ok|prove_nodup|vm_compute; reflexivity|vm_compute; reflexivity].
-Qed.
+Proof. split; [by_total|vm_compute; repeat split; reflexivity]. Qed.
 
-(* holes, session rows, a declining filter and a bounded EndSeqNo together:
-   rows {1 Logon, 2 D, 5 D, 6 HB, 9 D(declined), 10 D}, next 13, ResendRequest(2, 10) ->
-   D2, GapFill(3 -> 5), D5, GapFill(6 -> 10), D10;  ResendRequest(3, 8) -> GapFill(3 -> 5), D5, GapFill(6 -> 9) *)
+(* holes, session rows, a declining filter and a bounded EndSeqNo together *)
 Definition w_filter9 (r : row) : bool := negb (r_seq r =? 9).
 Definition w_gappy := w_state ST_ACTIVE 13 [w_logon; w_app 2; w_app 5; w_hb 6; w_app 9; w_app 10].
 Lemma holes_and_bounded_end_ok :
@@ -1133,29 +1105,19 @@ Lemma holes_and_bounded_end_ok :
   /\ (let s' := fst (serve_resend w_filter9 (dec 3) (dec 8) w_gappy) in
       map r_seq (wire s') = [3; 5; 6]
       /\ map (fun r => get_tag T_NewSeqNo (r_body r)) (wire s') = [Some [53%N]; None; Some [57%N]]).
-Proof.
-  assert (Hj : journal_ok w_gappy) by prove_journal_ok.
-  assert (Hn : NoDup (map r_seq (rows w_gappy))) by prove_nodup.
-  split; [apply resend_partial_total; [left; reflexivity|exact Hj|exact Hn|vm_compute; reflexivity|vm_compute; reflexivity]|].
-  split; [apply resend_partial_total; [left; reflexivity|exact Hj|exact Hn|vm_compute; reflexivity|vm_compute; reflexivity]|].
-  vm_compute. repeat split; reflexivity.
-Qed.
+Proof. split; [by_total|]. split; [by_total|]. vm_compute. repeat split; reflexivity. Qed.
 
 (* a second request over an already replayed range is answered like the first *)
 Definition w_first := w_state ST_ACTIVE 4 [w_logon; w_app 2; w_app 3].
 Definition w_second := fst (serve_resend w_all (dec 2) (dec 0) w_first).
 Lemma second_request_ok :
-  pristine w_first /\ resend_correct w_all w_first (dec 2) (dec 0)
+  resend_correct w_all w_first (dec 2) (dec 0)
   /\ rows w_second = rows w_first /\ nout w_second = 4
   /\ resend_correct w_all w_second (dec 2) (dec 0)
   /\ map r_seq (wire (fst (serve_resend w_all (dec 2) (dec 0) w_second))) = [2; 3; 2; 3].
 Proof.
-  assert (Hp : pristine w_first) by prove_pristine.
-  assert (Hp2 : pristine w_second) by prove_pristine.
-  split; [exact Hp|]. split.
-  { apply (pristine_total w_all w_first _ _ 2 0); try reflexivity; [vm_compute; congruence|left; reflexivity|exact Hp]. }
-  split; [reflexivity|]. split; [reflexivity|]. split; [|vm_compute; reflexivity].
-  apply (pristine_total w_all w_second _ _ 2 0); try reflexivity; [vm_compute; congruence|left; reflexivity|exact Hp2].
+  split; [by_total|]. split; [reflexivity|]. split; [reflexivity|]. split; [|vm_compute; reflexivity].
+  apply serve_repeatable; [left; reflexivity|prove_journal_ok|prove_nodup].
 Qed.
 
 (* requests that ask for nothing that was sent, or cannot be read: nothing is written, nothing changes,
@@ -1169,13 +1131,7 @@ Lemma unanswerable_requests_ok :
      = (mkSt ST_ACTIVE false false 3 2 2 (rows w_small) [] [] [ST_HANDLING; ST_ACTIVE], Some EAssertion)
   /\ serve_resend w_all (Some [120%N]) (dec 0) w_small
      = (mkSt ST_ACTIVE false false 3 2 2 (rows w_small) [] [] [ST_HANDLING; ST_ACTIVE], Some EValue).
-Proof.
-  assert (Hp : pristine w_small) by prove_pristine.
-  split; [apply (pristine_total w_all w_small _ _ 5 0); try reflexivity; [vm_compute; congruence|left; reflexivity|exact Hp]|].
-  split; [apply unreadable_correct; [left; reflexivity|reflexivity]|].
-  split; [apply unreadable_correct; [left; reflexivity|reflexivity]|].
-  split; vm_compute; reflexivity.
-Qed.
+Proof. split; [by_total|]. split; [by_total|]. split; [by_total|]. split; vm_compute; reflexivity. Qed.
 
 (* BeginSeqNo <= 0, concretely *)
 Lemma begin_nonpositive_example :
@@ -1183,60 +1139,43 @@ Lemma begin_nonpositive_example :
   /\ (let (s', x) := serve_resend w_all (dec (-3)) (dec 0) w_small in
       x = None /\ map r_seq (wire s') = [1; 2] /\ map r_type (wire s') = [MT_SEQUENCERESET; [68%N]]
       /\ cstate s' = ST_ACTIVE /\ nout s' = 3).
-Proof.
-  assert (Hp : pristine w_small) by prove_pristine.
-  split; [|split].
-  - apply (pristine_total w_all w_small _ _ 0 0); try reflexivity; [vm_compute; congruence|left; reflexivity|exact Hp].
-  - apply (pristine_total w_all w_small _ _ (-3) 0); try reflexivity; [vm_compute; congruence|left; reflexivity|exact Hp].
-  - vm_compute. repeat split; reflexivity.
-Qed.
+Proof. split; [by_total|]. split; [by_total|]. vm_compute. repeat split; reflexivity. Qed.
 
-(* EndSeqNo = 2^63 (a valid request for everything from 2): OverflowError from the range query, no answer *)
+(* EndSeqNo = 2^63 (was C06-end-beyond-64-bits): answered like EndSeqNo = 0 *)
 Definition two63 : Z := 9223372036854775808.
-Lemma end_beyond_64_refuted :
-  pristine w_small
-  /\ classes_of w_all w_small (dec 2) (dec two63) = (true, false)
-  /\ ~ resend_correct w_all w_small (dec 2) (dec two63)
+Lemma end_beyond_64_ok :
+  resend_correct w_all w_small (dec 2) (dec two63)
   /\ (let (s', x) := serve_resend w_all (dec 2) (dec two63) w_small in
-      x = Some EOverflow /\ wire s' = [] /\ cstate s' = ST_ACTIVE).
-Proof.
-  split; [prove_pristine|]. split; [vm_compute; reflexivity|]. split.
-  - intros (W & Hw & Hr & _).
-    assert (E : requested_range w_small (dec 2) (dec two63) = Some (2, 3)) by (vm_compute; reflexivity).
-    rewrite E in Hr. vm_compute in Hw. subst W. apply chain_nil_inv in Hr. discriminate.
-  - vm_compute. repeat split; reflexivity.
-Qed.
+      x = None /\ map r_seq (wire s') = [2] /\ map r_type (wire s') = [[68%N]] /\ cstate s' = ST_ACTIVE).
+Proof. split; [by_total|vm_compute; repeat split; reflexivity]. Qed.
 
-(* an application message journaled with PossDupFlag=N in its body cannot be retransmitted
-   (DuplicatedTagError): the request for it gets no answer; the state is ACTIVE again *)
-Definition w_tagged := w_state ST_ACTIVE 3
-  [w_logon; mkRow 2 [68%N] (time_str 2) [([49; 49]%N, [99; 50]%N); (T_PossDupFlag, V_N)]].
-Lemma possdup_tag_refuted :
-  journal_ok w_tagged /\ NoDup (map r_seq (rows w_tagged))
-  /\ classes_of w_all w_tagged (dec 2) (dec 0) = (false, true)
-  /\ ~ resend_correct w_all w_tagged (dec 2) (dec 0)
+(* journaled application messages that themselves carry tag 43 / 122 (was C06-row-carries-possdup-tags):
+   row 2 = [11=c2; 43=N; 55=SYM] is retransmitted as [11=c2; 43=Y; 55=SYM; 122=T2] (43 overwritten in
+   place, 122 appended); row 3 = [122=X; 11=c3] as [122=T3; 11=c3; 43=Y] (122 overwritten in place with
+   the journaled SendingTime, 43 appended) *)
+Definition w_tagged := w_state ST_ACTIVE 4
+  [w_logon;
+   mkRow 2 [68%N] (time_str 2) [([49; 49]%N, [99; 50]%N); (T_PossDupFlag, V_N); ([53; 53]%N, [83; 89; 77]%N)];
+   mkRow 3 [68%N] (time_str 3) [(T_OrigSendingTime, [88%N]); ([49; 49]%N, [99; 51]%N)]].
+Lemma possdup_tags_ok :
+  resend_correct w_all w_tagged (dec 2) (dec 0)
   /\ (let (s', x) := serve_resend w_all (dec 2) (dec 0) w_tagged in
-      x = Some EDuplicatedTag /\ wire s' = [] /\ cstate s' = ST_ACTIVE).
-Proof.
-  split; [prove_journal_ok|]. split; [prove_nodup|].
-  split; [vm_compute; reflexivity|]. split.
-  - intros (W & Hw & Hr & _).
-    assert (E : requested_range w_tagged (dec 2) (dec 0) = Some (2, 3)) by (vm_compute; reflexivity).
-    rewrite E in Hr. vm_compute in Hw. subst W. apply chain_nil_inv in Hr. discriminate.
-  - vm_compute. repeat split; reflexivity.
-Qed.
+      x = None /\ map r_seq (wire s') = [2; 3]
+      /\ map r_body (wire s')
+         = [[([49; 49]%N, [99; 50]%N); (T_PossDupFlag, V_Y); ([53; 53]%N, [83; 89; 77]%N); (T_OrigSendingTime, time_str 2)];
+            [(T_OrigSendingTime, time_str 3); ([49; 49]%N, [99; 51]%N); (T_PossDupFlag, V_Y)]]
+      /\ rows s' = rows w_tagged /\ cstate s' = ST_ACTIVE).
+Proof. split; [by_total|vm_compute; repeat split; reflexivity]. Qed.
 
-(* non-vacuity of the partial theorem *)
+(* non-vacuity of the theorem's hypotheses: a journal with every kind of row in RESENDREQ_AWAITING *)
 Definition w_filter (r : row) : bool := negb (r_seq r =? 6).
 Definition w_rich := w_state ST_AWAITING 9 [w_logon; w_app 2; w_hb 3; mkRow 4 MT_SEQUENCERESET (time_str 4) [(T_NewSeqNo, [53%N])]; w_app 5; w_app 6; w_hb 7].
 Lemma nonvacuous :
   journal_ok w_rich /\ NoDup (map r_seq (rows w_rich)) /\ cstate w_rich = ST_AWAITING
-  /\ classes_of w_filter w_rich (dec 2) (dec 0) = (false, false)
   /\ (let s' := fst (serve_resend w_filter (dec 2) (dec 0) w_rich) in
       map r_seq (wire s') = [2; 3; 5; 6] /\ map r_type (wire s') = [[68%N]; MT_SEQUENCERESET; [68%N]; MT_SEQUENCERESET]
       /\ map (fun r => get_tag T_NewSeqNo (r_body r)) (wire s') = [None; Some [53%N]; None; Some [57%N]]
       /\ rows s' = rows w_rich /\ nout s' = 9 /\ cstate s' = ST_AWAITING).
 Proof.
-  split; [prove_journal_ok|]. split; [prove_nodup|].
-  split; [reflexivity|]. split; [vm_compute; reflexivity|]. vm_compute. repeat split; reflexivity.
+  split; [prove_journal_ok|]. split; [prove_nodup|]. split; [reflexivity|]. vm_compute. repeat split; reflexivity.
 Qed.
